@@ -16,7 +16,9 @@ Oracle on the implementation alone (the property itself): membership ⇔ not exc
 true over the merchant's own payments (variables evaluated per merchant by the harness's own loop, and once more with
 every variable reference textually replaced by its definition: one closed expression over the primitives); add / remove / reorder views leaves other views alone; view total =
 Σ member totals; a failing filter excludes instead of aborting; months / total / cv against an exact
-(Fraction) specification.
+(Fraction) specification; the aggregates sum / count / avg / min / max / stddev on `payments` and on by()-buckets against their
+exact rational value (fixed-price and nearly fixed-price histories included: k identical non-integer payments have deviation
+exactly 0), and membership in views whose filters compare an aggregate with a threshold against that exact value.
 """
 import datetime
 import json
@@ -322,7 +324,12 @@ BASE_TXNS = [
 ]
 
 
-def expr_items(r, n_random, n_ill):
+AGG_FILTERS = [f'{f}(payments)' for f in ['sum', 'count', 'avg', 'min', 'max', 'stddev']] + [
+    'stddev(by("month"))', 'avg(by("month"))', 'max(stddev(by("year")))', 'stddev(payments) == 0', 'stddev(payments) > 0',
+    'stddev(payments) / avg(payments) < 0.05', 'max(payments) - min(payments) == 0', 'cv == 0', 'cv']
+
+
+def expr_items(r, n_random, n_ill, n_price=0):
     """(text, txns, variables, period, label)"""
     for e, v, label in table_items():
         yield e, BASE_TXNS, v, {}, 'table:' + label
@@ -332,6 +339,10 @@ def expr_items(r, n_random, n_ill):
         pd = r.choice([{}, {'month': 12, 'year': 1}, {'month': 3, 'year': 2, 'week': 9}])
         for e in fixed:
             yield e, txns, {}, pd, 'fixed'
+    for _ in range(n_price):
+        txns = gen_price_ctx_txns(r)
+        for e in AGG_FILTERS:
+            yield e, txns, {}, {}, 'price'
     for i in range(n_random + n_ill):
         txns = gen_ctx_txns(r)
         variables, vtypes = {}, {}
@@ -384,7 +395,7 @@ def run_expr_stream(items):
         stats['outcomes'][key] = stats['outcomes'].get(key, 0) + 1
         lab = k[4].split(':')[0]
         stats['labels'][lab] = stats['labels'].get(lab, 0) + 1
-        if 'ok' in b and len(k[1]) >= 2 and lab in ('random', 'fixed'):
+        if 'ok' in b and len(k[1]) >= 2 and lab in ('random', 'fixed', 'price'):
             nontrivial.add(k[0] + '|' + json.dumps([float_bits(t['amount']) for t in k[1]]))
         bad = None
         if m != b:
@@ -1068,6 +1079,375 @@ def primitives_oracle(txns):
     return fails
 
 
+# ---- the aggregate functions against their exact value; fixed-price merchants -------------------------------------
+# `sum count avg min max stddev` are "as documented": the sum, the number, the mean, the least, the greatest, the SAMPLE standard
+# deviation (n - 1) of the values, 0 for an empty list (stddev: 0 for fewer than 2 values), applied per bucket to a by()-grouping.
+# The specification below computes them in exact rational arithmetic (Fractions; the square root to 60 significant digits) and
+# never calls tally or `statistics`.  Histories that matter here are the ones on which a floating-point shortcut loses everything:
+# k IDENTICAL non-integer payments (a subscription: 12 x 15.49, 3 x 1899.99 - deviation exactly 0) and NEARLY identical ones.
+AGGS = ['sum', 'count', 'avg', 'min', 'max', 'stddev']
+PRICES = [15.49, 9.99, 64.1, 1899.99, 0.1, 0.07, 4.35, 19.99, 129.95, 1234.56, 33.33, 2.675, 1e-3, 99999.99]
+
+
+def gen_price(r):
+    k = r.random()
+    if k < 0.45:
+        return r.choice(PRICES)
+    if k < 0.9:
+        return r.randint(1, 300000) / 100.0
+    return r.choice([r.randint(1, 9999) / 1000.0, r.randint(100000, 99999999) / 100.0, 12, 0.5])
+
+
+def gen_history(r, kind):
+    """amounts of one merchant: 'fixed' k identical payments, 'near' identical but for a cent here and there, 'two' two prices,
+    'refund' identical payments and their refunds, 'varied' unrelated amounts"""
+    n = r.choice([2, 2, 3, 3, 4, 6, 11, 12, 12, 13, 24, 36])
+    p = gen_price(r)
+    if r.random() < 0.1:
+        p = -p
+    if kind == 'fixed':
+        return [p] * n
+    if kind == 'near':
+        out = [p] * n
+        for i in r.sample(range(n), r.choice([1, 1, 2]) if n > 2 else 1):
+            out[i] = round(p + r.choice([0.01, -0.01, 0.02, 1e-9, 1.0]), 9)
+        return out
+    if kind == 'two':
+        q = round(p + r.choice([0.01, 1, 5.5, -0.3]), 2)
+        return [r.choice([p, q]) for _ in range(n)]
+    if kind == 'refund':
+        return [p] * n + [-p] * r.choice([1, n])
+    if kind == 'single':
+        return [p]
+    return [gen_amount(r, 'cents') for _ in range(n)]
+
+
+HISTORY_KINDS = ['fixed', 'fixed', 'fixed', 'near', 'near', 'two', 'refund', 'single', 'varied', 'varied']
+
+
+def gen_price_transactions(r):
+    """transactions for analyze_transactions: 2-6 merchants, most of them with a fixed or nearly fixed price"""
+    out, kinds = [], {}
+    for name in r.sample(NAMES, r.choice([2, 3, 4, 5, 6])):
+        kind = r.choice(HISTORY_KINDS)
+        kinds[name] = kind
+        cat = r.choice(CATS)
+        tags = gen_tags(r, 0.0) + ([case_variant(r, r.choice(SPECIAL))] if r.random() < 0.12 else [])
+        start = 2024 * 12 + r.choice([0, 1, 5])
+        per_month = r.choice([1, 1, 1, 2, 3])          # several payments in one month: by("month") buckets of identical values
+        for i, a in enumerate(gen_history(r, kind)):
+            y, m = divmod(start + i // per_month, 12)
+            out.append({'merchant': name, 'category': cat[0], 'subcategory': cat[1], 'amount': a, 'date': datetime.datetime(y, m + 1, r.randint(1, 28)),
+                        'tags': list(tags), 'description': 'D ' + name, 'source': 'S'})
+    r.shuffle(out)
+    return out, kinds
+
+
+def gen_price_ctx_txns(r):
+    """one merchant's payments as evaluate_filter may receive them, with a fixed / nearly fixed price"""
+    kind = r.choice(HISTORY_KINDS)
+    cat, name = r.choice(CATS), r.choice(NAMES)
+    out = []
+    same_day = r.random() < 0.3
+    d0 = gen_date(r)
+    for a in gen_history(r, kind):
+        t = {'amount': a, 'category': cat[0], 'subcategory': cat[1], 'merchant': name, 'tags': gen_tags(r, 0.0)}
+        if r.random() < 0.95:
+            t['date'] = d0 if same_day and r.random() < 0.6 else gen_date(r)
+        out.append(t)
+    return out
+
+
+def exact_sqrt(v):
+    """sqrt of a non-negative Fraction to 60 significant digits (exactly 0 for 0)"""
+    import decimal
+    if v == 0:
+        return Fraction(0)
+    with decimal.localcontext() as c:
+        c.prec = 60
+        return Fraction((decimal.Decimal(v.numerator) / decimal.Decimal(v.denominator)).sqrt())
+
+
+def spec_aggregate(f, xs):
+    """the documented value of f(xs) for a flat list of numbers, exactly"""
+    fx = [Fraction(x) for x in xs]
+    if f == 'count':
+        return Fraction(len(fx))
+    if not fx:
+        return Fraction(0)
+    if f == 'sum':
+        return sum(fx, Fraction(0))
+    if f == 'avg':
+        return sum(fx, Fraction(0)) / len(fx)
+    if f == 'min':
+        return min(fx)
+    if f == 'max':
+        return max(fx)
+    if f == 'stddev':
+        if len(fx) < 2:
+            return Fraction(0)
+        mu = sum(fx, Fraction(0)) / len(fx)
+        return exact_sqrt(sum(((x - mu) ** 2 for x in fx), Fraction(0)) / (len(fx) - 1))
+    raise ValueError(f)
+
+
+def agg_scale(f, xs):
+    """magnitude against which a rounding error of f(xs) is measured"""
+    if f == 'count' or not xs:
+        return 1.0
+    if f == 'sum':
+        return max(1.0, float(sum(abs(Fraction(x)) for x in xs)))
+    return max(1.0, max(abs(x) for x in xs))
+
+
+AGG_TOL = Fraction(1, 10 ** 9)
+
+
+def agg_value_ok(f, xs, got):
+    """got = f(xs) on the implementation: a real number, within 1e-9 of the exact value relative to the size of the data (any
+    sensible floating-point evaluation is within 1e-13); count / min / max exactly; the deviation of identical values exactly 0"""
+    if isinstance(got, bool) or not isinstance(got, (int, float)) or not math.isfinite(got):
+        return False
+    want = spec_aggregate(f, xs)
+    if f in ('count', 'min', 'max') or (f == 'stddev' and want == 0):
+        return Fraction(got) == want
+    return abs(Fraction(got) - want) <= AGG_TOL * Fraction(agg_scale(f, xs))
+
+
+def show(v):
+    return v if isinstance(v, (int, float, str, bool, type(None))) else repr(v)
+
+
+def aggregates_oracle(txns):
+    """every aggregate on `payments` and on every by()-grouping of the context, against the exact specification"""
+    from tally import expr_parser as EP
+    fails = []
+    if not all(isinstance(t['amount'], (int, float)) and not isinstance(t['amount'], bool) and math.isfinite(t['amount']) for t in txns):
+        return fails
+    case = {'ctx': ctx_json(txns, {}, {})}
+
+    def ev(e):
+        try:
+            return EP.evaluate(e, make_ctx(txns, {}, {}))
+        except EP.ExpressionError as ex:
+            return ('cannot-be-evaluated', str(ex)[:120])
+    pays = [t['amount'] for t in txns]
+    dated = [t for t in txns if 'date' in t]
+    groupings = {'month': lambda d: (d.year, d.month), 'year': lambda d: (d.year,), 'day': lambda d: (d.year, d.month, d.day)}
+    for f in AGGS:
+        got = ev(f'{f}(payments)')
+        if not agg_value_ok(f, pays, got):
+            fails.append(dict(case, **{'class': 'aggregate-differs-from-its-exact-value', 'expression': f'{f}(payments)', 'payments': pays,
+                                       'observed': show(got), 'required': float(spec_aggregate(f, pays))}))
+        for field, keyf in groupings.items():
+            groups = [[t['amount'] for t in dated if keyf(t['date']) == k] for k in sorted({keyf(t['date']) for t in dated})]
+            if not groups:
+                continue
+            got = ev(f'{f}(by("{field}"))')
+            if not (isinstance(got, list) and len(got) == len(groups) and all(agg_value_ok(f, g, x) for g, x in zip(groups, got))):
+                fails.append(dict(case, **{'class': 'aggregate-over-buckets-differs-from-its-exact-value', 'expression': f'{f}(by("{field}"))',
+                                           'buckets': groups, 'observed': show(got), 'required': [float(spec_aggregate(f, g)) for g in groups]}))
+    # the boundary a fixed-price filter sits on: identical payments have deviation 0 - `== 0` is true, `> 0` false, and both CAN be evaluated
+    if len(pays) >= 2:
+        flat = len(set(Fraction(x) for x in pays)) == 1
+        for e, want in (('stddev(payments) == 0', flat), ('stddev(payments) > 0', not flat), ('stddev(payments) <= 0', flat),
+                        ('not stddev(payments)', flat), ('max(payments) == min(payments)', flat),
+                        ('stddev(payments) < 0.001 * max_val(1, abs(avg(payments)))', None)):
+            got = ev(e)
+            if want is None:
+                sd, av = spec_aggregate('stddev', pays), spec_aggregate('avg', pays)
+                lim = max(Fraction(1), abs(av)) / 1000
+                if abs(sd - lim) <= AGG_TOL * 1000 * Fraction(agg_scale('avg', pays)):
+                    continue
+                want = sd < lim
+            if got is not want:
+                fails.append(dict(case, **{'class': 'filter-over-an-aggregate-differs-from-its-exact-truth', 'expression': e, 'payments': pays,
+                                           'observed': show(got), 'required': want}))
+    return fails
+
+
+# ---- views whose filters compare an aggregate with a threshold, decided by the exact specification --------------------------
+def term_text(t):
+    if t['kind'] == 'flat':
+        return f'{t["f"]}(payments)'
+    if t['kind'] == 'nested':
+        return f'{t["outer"]}({t["f"]}(by("{t["field"]}")))'
+    if t['kind'] == 'ratio':
+        return 'stddev(payments) / avg(payments)'
+    return 'max(payments) - min(payments)'
+
+
+def term_value(t, pays, months):
+    """exact value of a term for a merchant: pays = all amounts, months = {'YYYY-MM': [amounts]}; None = not defined"""
+    if t['kind'] == 'flat':
+        return spec_aggregate(t['f'], pays)
+    if t['kind'] == 'nested':
+        if t['field'] == 'month':
+            groups = [months[k] for k in sorted(months)]
+        else:
+            ys = sorted({k[:4] for k in months})
+            groups = [[a for k in sorted(months) if k[:4] == y for a in months[k]] for y in ys]
+        if not groups:
+            return None
+        inner = [spec_aggregate(t['f'], g) for g in groups]
+        return spec_aggregate(t['outer'], inner) if t['outer'] != 'stddev' else None
+    if t['kind'] == 'ratio':
+        av = spec_aggregate('avg', pays)
+        return None if av == 0 else spec_aggregate('stddev', pays) / av
+    return spec_aggregate('max', pays) - spec_aggregate('min', pays)
+
+
+def term_scale(t, pays):
+    if t['kind'] == 'ratio':
+        av = abs(spec_aggregate('avg', pays))
+        return max(1.0, agg_scale('max', pays) / float(av)) if av else 1.0
+    if t['kind'] == 'flat':
+        return agg_scale(t['f'], pays)
+    if t['kind'] == 'nested' and (t['f'] == 'count' and t['outer'] != 'sum'):
+        return float(max(1, len(pays)))
+    return agg_scale('sum', pays)
+
+
+CMP = {'<': lambda a, b: a < b, '<=': lambda a, b: a <= b, '>': lambda a, b: a > b, '>=': lambda a, b: a >= b,
+       '==': lambda a, b: a == b, '!=': lambda a, b: a != b}
+
+
+def merchant_payments(d):
+    tx = d.get('transactions', [])
+    months = {}
+    for t in tx:
+        months.setdefault(t['month'], []).append(t['amount'])
+    return [t['amount'] for t in tx], months
+
+
+def gen_term(r):
+    k = r.random()
+    if k < 0.5:
+        return {'kind': 'flat', 'f': r.choice(AGGS + ['stddev', 'stddev', 'avg'])}
+    if k < 0.8:
+        return {'kind': 'nested', 'f': r.choice(AGGS + ['stddev']), 'outer': r.choice(['max', 'min', 'sum', 'avg', 'max']), 'field': r.choice(['month', 'month', 'year'])}
+    return {'kind': r.choice(['ratio', 'range'])}
+
+
+def num_text(x):
+    s = repr(x)
+    return s if x >= 0 else f'({s})'
+
+
+def gen_aggregate_atom(r, kept):
+    """{'term', 'op', 'thr'} with the threshold SEPARATED from every merchant's exact value (>= 1e-6 of the data's size), or exactly
+    on a boundary whose truth is an exact matter (deviation / range of identical payments == 0, count == k, min == an actual amount)"""
+    data = [merchant_payments(d) for _, d in kept]
+    if r.random() < 0.4:
+        k = r.random()
+        anyp = r.choice(data)[0]
+        if k < 0.55:
+            return {'term': {'kind': 'flat', 'f': 'stddev'}, 'op': r.choice(['==', '==', '>', '!=', '<=']), 'thr': 0, 'exact': True}
+        if k < 0.65:
+            return {'term': {'kind': 'range'}, 'op': r.choice(['==', '>', '<=']), 'thr': 0, 'exact': True}
+        if k < 0.75:
+            return {'term': {'kind': 'nested', 'f': 'stddev', 'outer': 'max', 'field': r.choice(['month', 'year'])}, 'op': r.choice(['==', '>']), 'thr': 0, 'exact': True}
+        if k < 0.85:
+            return {'term': {'kind': 'flat', 'f': 'count'}, 'op': r.choice(['==', '>=', '<', '!=']), 'thr': len(anyp), 'exact': True}
+        return {'term': {'kind': 'flat', 'f': r.choice(['min', 'max'])}, 'op': r.choice(['==', '<=', '>=', '<', '>']), 'thr': r.choice(anyp), 'exact': True}
+    for _ in range(12):
+        t = gen_term(r)
+        vals = [(term_value(t, p, m), term_scale(t, p), p) for p, m in data]
+        if any(v is None for v, _, _ in vals):
+            continue
+        vs = sorted({v for v, _, _ in vals})
+        cands = [float((a + b) / 2) for a, b in zip(vs, vs[1:])] + [float(v) * q for v in vs for q in (0.5, 0.9, 1.1, 2.0)] + [0.01, 0.3, 1, 100]
+        if t.get('f') == 'stddev' and t['kind'] == 'flat':      # between the sample (n - 1) and the population (n) deviation
+            cands += [float(v) * (1 + math.sqrt((len(p) - 1) / len(p))) / 2 for v, _, p in vals if len(p) >= 2 and v > 0] * 3
+        thr = r.choice(cands)
+        thr = float(f'{thr:.6g}')
+        if all(abs(Fraction(thr) - v) > Fraction(1, 10 ** 6) * Fraction(sc) for v, sc, _ in vals):
+            return {'term': t, 'op': r.choice(['<', '<=', '>', '>=']), 'thr': thr, 'exact': False}
+    return {'term': {'kind': 'flat', 'f': 'stddev'}, 'op': '==', 'thr': 0, 'exact': True}
+
+
+def atom_text(a, name=None):
+    return f'{name or term_text(a["term"])} {a["op"]} {num_text(a["thr"])}'
+
+
+def atom_truth(a, d):
+    pays, months = merchant_payments(d)
+    v = term_value(a['term'], pays, months)
+    return None if v is None else CMP[a['op']](v, Fraction(a['thr']))
+
+
+def gen_aggregate_views(r, bm):
+    """views file whose every filter is an aggregate compared with a threshold (bare, through a global or a view-local variable, two of
+    them joined by and / or, or negated); `spec` is what the exact oracle evaluates - never the text"""
+    kept = [(n, d) for n, d in bm.items() if not spec_excluded(d.get('tags', []))] or list(bm.items())
+    gl, secs, spec = [], [], []
+    vnames = ['Fixed Price', 'Steady', 'Variable', 'Large', 'Small', 'Frequent']
+    r.shuffle(vnames)
+    gnames = ['sd', 'spread2', 'level', 'agg1']
+    for i in range(r.choice([1, 2, 3, 3, 4])):
+        atoms = [gen_aggregate_atom(r, kept) for _ in range(r.choice([1, 1, 1, 2]))]
+        join = r.choice(['and', 'or'])
+        neg = r.random() < 0.15
+        texts, loc = [], []
+        for j, a in enumerate(atoms):
+            via = r.choice([None, None, 'global', 'local'])
+            if via == 'global' and gnames:
+                g = gnames.pop()
+                gl.append((g, term_text(a['term'])))
+                texts.append(atom_text(a, ref_case(r, g)))
+            elif via == 'local':
+                loc.append((f'v{j}', term_text(a['term'])))
+                texts.append(atom_text(a, f'v{j}'))
+            else:
+                texts.append(atom_text(a))
+        f = f' {join} '.join(texts)
+        if neg:
+            f = f'not ({f})'
+        secs.append({'name': vnames[i], 'locals': loc, 'filter': f})
+        spec.append({'name': vnames[i], 'atoms': atoms, 'join': join, 'neg': neg})
+    return {'globals': gl, 'sections': secs, 'aggregate': True, 'spec': spec}
+
+
+def aggregate_views_oracle(spec, text, bm, num_months=12, stats=None):
+    """membership in every view of an aggregate views file == the exact truth of its filter for each non-excluded merchant"""
+    from tally import section_engine as SE, analyzer
+    case = {'views_text': text, 'merchants': bm_to_json(bm), 'num_months': num_months, 'aggregate_spec': spec}
+    try:
+        cfg = SE.parse_sections(text)
+    except SE.SectionParseError:
+        return []
+    try:
+        res = analyzer.classify_by_sections(bm, cfg, num_months)
+    except Exception as e:
+        return [dict(case, **{'class': 'filter-error-aborts-classification', 'observed': f'{type(e).__name__}: {e}'[:300]})]
+    kept = [(n, d) for n, d in bm.items() if not spec_excluded(d.get('tags', []))]
+    fails = []
+    for v in spec:
+        want, undecided = [], False
+        for n, d in kept:
+            ts = [atom_truth(a, d) for a in v['atoms']]
+            if any(t is None for t in ts):
+                undecided = True
+                break
+            t = all(ts) if v['join'] == 'and' else any(ts)
+            if t != v['neg']:
+                want.append(n)
+        if undecided:
+            continue
+        if stats is not None:
+            stats['decisions'] = stats.get('decisions', 0) + len(kept)
+            stats['exact_boundary_decisions'] = stats.get('exact_boundary_decisions', 0) + (len(kept) if any(a['exact'] for a in v['atoms']) else 0)
+            stats['proper_subsets'] = stats.get('proper_subsets', 0) + (1 if 0 < len(want) < len(kept) else 0)
+        got = [n for n, _ in res.get(v['name'], [])]
+        if got != want:
+            flt = [s for s in text.split('\n[') if s.startswith(v['name'] + ']')]
+            fails.append(dict(case, **{'class': 'membership-differs-from-exact-value-of-the-aggregate', 'view': v['name'],
+                                       'view_text': ('[' + flt[0]) if flt else None, 'observed': got, 'required': want,
+                                       'payments_of_the_merchants_in_question': {n: merchant_payments(bm[n])[0] for n in set(got) ^ set(want)}}))
+            break
+    return fails
+
+
 def error_excludes_oracle(bm, r, num_months=12):
     """A view whose filter cannot be evaluated: nobody is listed in it, nothing aborts, other views are untouched."""
     from tally import section_engine as SE, analyzer
@@ -1106,6 +1486,8 @@ def replay_case(ce, r):
         bm = bm_from_json(ce['merchants'])
         nm = ce.get('num_months', 12)
         out = views_oracle(None, ce['views_text'], bm, r, nm)
+        if ce.get('aggregate_spec'):
+            out = aggregate_views_oracle(ce['aggregate_spec'], ce['views_text'], bm, nm) + out
         if not out and ce.get('other_views_text') and ce.get('view'):
             try:
                 a = analyzer.classify_by_sections(bm, SE.parse_sections(ce['views_text']), nm)
@@ -1124,7 +1506,7 @@ def replay_case(ce, r):
             if t['date']:
                 d['date'] = datetime.datetime(*t['date'])
             txns.append(d)
-        return primitives_oracle(txns)
+        return primitives_oracle(txns) + aggregates_oracle(txns)
     return []
 
 
@@ -1191,8 +1573,9 @@ def run(ctx):
 
     # ---- stream `expr`
     n_random, n_ill = (3000, 1200) if ctx.quick else (120000, 40000)
+    n_price = 40 if ctx.quick else 1500
     try:
-        n_expr, dis, stats, nontriv_e = run_expr_stream(list(expr_items(r, n_random, n_ill)))
+        n_expr, dis, stats, nontriv_e = run_expr_stream(list(expr_items(r, n_random, n_ill, n_price)))
     except Exception as e:
         n_expr, dis, stats, nontriv_e = 0, [{'driver_error': f'{type(e).__name__}: {e}'[:500]}], {}, 0
     ctx.obligation('correspondence:ExpressionEvaluator-vs-View.eval', 'correspondence', not dis, cases=n_expr,
@@ -1201,8 +1584,20 @@ def run(ctx):
 
     # ---- stream `views`
     n_views = 800 if ctx.quick else 25000
+    n_agg = 120 if ctx.quick else 4000         # + views over aggregates of fixed-price / nearly fixed-price merchants
     vcases, impl_out, meta = [], [], []
-    for i in range(n_views):
+    for i in range(n_views + n_agg):
+        if i >= n_views:
+            bm = by_merchant_of(gen_price_transactions(r)[0])
+            views = gen_aggregate_views(r, bm)
+            text = render_views(views)
+            nm = r.choice([12, 12, 3])
+            out, cfg = impl_views(text, bm, nm)
+            if cfg is not None:
+                vcases.append((config_json(cfg), bm_to_json(bm), nm))
+                impl_out.append(out)
+                meta.append((views, text, bm, nm))
+            continue
         txns = gen_transactions(r, dyadic=(i % 5 != 4))
         bm = by_merchant_of(txns)
         if i % 9 == 8:     # hand-built shapes analyze_transactions never produces
@@ -1245,9 +1640,21 @@ def run(ctx):
     # ---- the property on the implementation alone
     n_oracle = 0
     ostats = {}
+    astats = {}
     for (views, text, bm, nm) in meta:
         prop_fail.extend(views_oracle(views, text, bm, r, nm, ostats))
+        if views.get('aggregate'):
+            prop_fail.extend(aggregate_views_oracle(views['spec'], text, bm, nm, astats))
         n_oracle += 1
+    agg = [(v, bm) for (v, _, bm, _) in meta if v.get('aggregate')]
+    flat = lambda d: len(d.get('transactions', [])) >= 2 and len({t['amount'] for t in d['transactions']}) == 1 and \
+        not float(d['transactions'][0]['amount']).is_integer()
+    ctx.notes['aggregate_views_stream'] = {
+        'views_files': len(agg), 'views': sum(len(v['spec']) for v, _ in agg),
+        'merchants': sum(len(bm) for _, bm in agg), 'merchants_with_identical_non_integer_payments': sum(1 for _, bm in agg for d in bm.values() if flat(d)),
+        'membership_decisions_by_the_exact_specification': astats.get('decisions', 0),
+        'of_which_on_an_exact_boundary(stddev == 0, range == 0, count == k, min == amount)': astats.get('exact_boundary_decisions', 0),
+        'views_that_list_a_proper_nonempty_subset': astats.get('proper_subsets', 0)}
     ind = [(v, bm, im) for (v, _, bm, _), im in zip(meta, impl_out) if v.get('indirect')]
     split = sum(1 for v, bm, im in ind if 'result' in im and any(0 < len(ms) < len(bm) for _, ms in im['result']))
     ctx.notes['indirect_globals_stream'] = {
@@ -1256,9 +1663,17 @@ def run(ctx):
         'written_out_filter_decisions(all files)': ostats.get('written_out_decisions', 0)}
     for (views, text, bm, nm) in meta[: (60 if ctx.quick else 1500)]:
         prop_fail.extend(error_excludes_oracle(bm, r, nm))
-    for _ in range(150 if ctx.quick else 5000):
+    n_aggctx = 0
+    for i in range(150 if ctx.quick else 5000):
         t = gen_ctx_txns(r)
         prop_fail.extend(primitives_oracle(t))
+        prop_fail.extend(aggregates_oracle(t))
+        for t in (gen_price_ctx_txns(r), gen_price_ctx_txns(r)):
+            prop_fail.extend(primitives_oracle(t))
+            prop_fail.extend(aggregates_oracle(t))
+        n_aggctx += 3
+    ctx.notes['aggregate_values_stream'] = {'contexts': n_aggctx, 'of_which_fixed_or_nearly_fixed_price': 2 * n_aggctx // 3,
+                                            'aggregate_values_compared_per_context': '6 functions x (payments + by month / year / day buckets) + 6 boundary filters'}
     n_arr = 0
     for (views, text, bm, nm) in [x for x in meta if len(x[0]['sections']) >= 3][: (6 if ctx.quick else 300)]:
         f, k = exhaustive_independence(views, bm, nm)
@@ -1283,7 +1698,19 @@ def run(ctx):
                        'before the definition — and views / view-local variables that use the derived ones, thresholds drawn from the merchant set) '
                        'parsed by the real parse_sections × merchant sets produced by the real analyze_transactions (1–6 merchants, '
                        '25 % with special tags in mixed case); result, per-view total and count compared. '
-                       'non-trivial = expr: value outcome on ≥ 2 payments for a random/fixed filter; views: some view lists a proper, '
+                       'stream aggregates: (a) contexts - generated ones plus twice as many FIXED-PRICE / NEARLY FIXED-PRICE histories (2-36 payments: k '
+                       'identical non-integer amounts such as 12 x 15.49 or 3 x 1899.99, identical but for a cent / 1e-9 on one or two payments, two '
+                       'prices, payments and their refunds, negative prices, several payments on one day) - every aggregate sum / count / avg / min / '
+                       'max / stddev on payments and on the by(month | year | day) buckets against its exact rational value (1e-9 of the data\'s size; '
+                       'count / min / max and the deviation of identical values exactly), and the boundary filters stddev(payments) == 0 / > 0 / <= 0 / '
+                       'not stddev(payments) / max == min against their exact truth; the same contexts run 15 aggregate filters through the Lean '
+                       'correspondence; (b) views files over merchant sets of mostly fixed-price merchants (built by the real analyze_transactions) whose '
+                       'filters compare an aggregate term (f(payments), outer(f(by(month | year))), stddev / avg, max - min; bare, through a global or a '
+                       'view-local variable, two joined by and / or, negated) with a threshold that is either separated from every merchant\'s exact value '
+                       'by >= 1e-6 of the data\'s size (midpoints between merchants, between sample and population deviation) or sits on a boundary whose '
+                       'truth is exact (stddev == 0, range == 0, count == k, min == an actual amount): membership == the exact specification\'s verdict '
+                       '(counts in notes.aggregate_views_stream / aggregate_values_stream). '
+                       'non-trivial = expr: value outcome on ≥ 2 payments for a random/fixed/price filter; views: some view lists a proper, '
                        'non-empty subset of ≥ 2 merchants')
     for (views, text, bm, nm), im in list(zip(meta, impl_out))[:3]:
         ctx.sample({'views_text': text, 'merchants': [m['name'] for m in bm_to_json(bm)], 'implementation': im})
@@ -1298,6 +1725,11 @@ def run(ctx):
             out.extend(views_oracle(views, render_views(views), bm, r))
             out.extend(error_excludes_oracle(bm, r))
             out.extend(primitives_oracle(gen_ctx_txns(r)))
+            t = gen_price_ctx_txns(r)
+            out.extend(primitives_oracle(t) + aggregates_oracle(t))
+            bm = by_merchant_of(gen_price_transactions(r)[0])
+            views = gen_aggregate_views(r, bm)
+            out.extend(aggregate_views_oracle(views['spec'], render_views(views), bm))
             if out:
                 break
         ctx.cov['evaluations'] += 400
@@ -1311,4 +1743,6 @@ def run(ctx):
         'oracle parameters (quantified universally in the theorems): statistics.stdev, float x**2 and x**0.5 (libm pow), round, '
         'float %, str.lower on non-ASCII text; ast.parse',
         'is_excluded_from_spending is the GENERATED Gen/ClassPy definition (translator tie of C06/C13)',
-        'spec lemmas total_def / cv_def are over exact (int) amounts; float rounding is modelled away there'])
+        'spec lemmas total_def / cv_def are over exact (int) amounts; float rounding is modelled away there',
+        'aggregate oracle: the exact value is computed by the harness in Fractions (sqrt to 60 digits, decimal); accepted deviation 1e-9 of the '
+        'data\'s size, except count / min / max and the deviation of identical values, which must be exact'])
